@@ -4,8 +4,11 @@ use crc::{Crc, CRC_32_ISCSI};
 use std::{
     fmt::{self, Debug, Formatter},
     net::SocketAddrV4,
-    time::Instant,
 };
+#[cfg(not(mainline_verif))]
+use std::time::Instant;
+#[cfg(mainline_verif)]
+use crate::verif::Instant;
 
 use tracing::trace;
 
